@@ -475,6 +475,8 @@ pub async fn integrity_checks(dev: &mut Device, rec: &mut Recorder) {
     // event record payload corruption (file-system backend: bytes in the log file;
     // sqlite: the event column)
     trials += corrupt_event_trials(dev, rec, conc).await;
+    trials += file_blob_trials(dev, rec, conc).await;
+    trials += removal_trials(dev, rec, conc).await;
     rec.stats.count_n("c16.corruption_trials", trials);
     rec.stats.count_n("cases", trials);
 }
@@ -623,4 +625,168 @@ async fn integrity_without_account(
         }
     }
     Ok(failures)
+}
+
+
+/// External file report: (files with a failure, completed).
+async fn run_file_report(dev: &Device, concurrency: usize) -> Result<(Vec<String>, bool, usize), String> {
+    use sos_integrity::{file_integrity, FileIntegrityEvent};
+    use sos_sync::StorageEventLogs;
+    let (target, files) = {
+        let a = dev.lock().await;
+        let t = a.backend_target().await.with_account_id(a.account_id());
+        let f = a.canonical_files().await.map_err(|e| e.to_string())?;
+        (t, f)
+    };
+    let n = files.len();
+    if n == 0 {
+        // the report never completes on an empty set by construction (no file
+        // finishes last); nothing to check
+        return Ok((vec![], true, 0));
+    }
+    let (mut rx, _cancel) = file_integrity(&target, files, concurrency).await.map_err(|e| e.to_string())?;
+    let mut failures = vec![];
+    let mut complete = false;
+    let mut budget = 400_000u32;
+    loop {
+        let ev = match tokio::time::timeout(std::time::Duration::from_secs(20), rx.recv()).await {
+            Ok(Some(ev)) => ev,
+            Ok(None) => break,
+            Err(_) => return Err("file integrity report did not terminate within 20 s".into()),
+        };
+        budget -= 1;
+        if budget == 0 {
+            return Err("file integrity report did not terminate".into());
+        }
+        match ev {
+            FileIntegrityEvent::Failure(f, why) => failures.push(format!("{f} {why:?}").chars().take(200).collect()),
+            FileIntegrityEvent::Complete => {
+                complete = true;
+                break;
+            }
+            _ => {}
+        }
+    }
+    Ok((failures, complete, n))
+}
+
+/// C16 for external file blobs: clean => no failure; one byte changed or the
+/// blob removed => a failure that names the file.
+async fn file_blob_trials(dev: &mut Device, rec: &mut Recorder, conc: usize) -> u64 {
+    use sos_sync::StorageEventLogs;
+    let backend = dev.kind.name();
+    let mut trials = 0;
+    match run_file_report(dev, conc).await {
+        Ok((failures, complete, n)) => {
+            if n > 0 {
+                rec.stats.count("c16.clean_file_reports");
+            }
+            if !failures.is_empty() {
+                rec.violate("C16", &format!("C16/{backend}/clean_account_reports_file_failure"), format!("{:?}", failures.iter().take(3).collect::<Vec<_>>()));
+            }
+            if !complete {
+                rec.violate("C16", &format!("C16/{backend}/file_report_never_completes"), format!("{n} files"));
+            }
+        }
+        Err(e) => {
+            rec.violate("C16", &format!("C16/{backend}/file_report_failed_on_clean_account"), e);
+            return 0;
+        }
+    }
+    let (paths, files) = {
+        let a = dev.lock().await;
+        (a.paths(), a.canonical_files().await.unwrap_or_default())
+    };
+    for (k, f) in files.iter().take(2).enumerate() {
+        let path = paths.into_file_path(f);
+        let Ok(orig) = std::fs::read(&path) else { continue };
+        // (a) one byte
+        if !orig.is_empty() {
+            let mut b = orig.clone();
+            let at = (k * 7919 + orig.len() / 2) % orig.len();
+            b[at] ^= 0x10;
+            if std::fs::write(&path, &b).is_ok() {
+                rec.stats.fault("disk.bitflip");
+                trials += 1;
+                rec.case(&format!("{backend}:blob.byte:{}", at * 4 / orig.len().max(1)));
+                match run_file_report(dev, conc).await {
+                    Ok((failures, _, _)) => {
+                        if !failures.iter().any(|x| x.starts_with(&f.to_string())) {
+                            rec.violate(
+                                "C16",
+                                &format!("C16/{backend}/corrupted_blob_not_reported"),
+                                format!("{f}: byte {at} of {} flipped; failures: {failures:?}", orig.len()),
+                            );
+                        }
+                    }
+                    Err(e) => rec.observe(&format!("file report error after corruption: {e}")),
+                }
+                let _ = std::fs::write(&path, &orig);
+            }
+        }
+        // (b) removed
+        let aside = path.with_extension("aside");
+        if std::fs::rename(&path, &aside).is_ok() {
+            rec.stats.fault("disk.file_removed");
+            trials += 1;
+            rec.case(&format!("{backend}:blob.removed"));
+            match run_file_report(dev, conc).await {
+                Ok((failures, _, _)) => {
+                    if !failures.iter().any(|x| x.starts_with(&f.to_string())) {
+                        rec.violate(
+                            "C16",
+                            &format!("C16/{backend}/removed_blob_not_reported"),
+                            format!("{f} removed; failures: {failures:?}"),
+                        );
+                    }
+                }
+                Err(e) => rec.observe(&format!("file report error after removal: {e}")),
+            }
+            let _ = std::fs::rename(&aside, &path);
+        }
+    }
+    trials
+}
+
+/// C16: a folder whose vault or event log has been removed (file-system
+/// backend: the file is gone) must show up in the report.
+async fn removal_trials(dev: &mut Device, rec: &mut Recorder, conc: usize) -> u64 {
+    if dev.kind != BackendKind::Fs {
+        return 0;
+    }
+    let mut trials = 0;
+    let paths = { dev.lock().await.paths() };
+    let fids: Vec<VaultId> = dev.model.folders.keys().copied().take(2).collect();
+    for fid in fids {
+        for (what, path) in [("vault", paths.vault_path(&fid)), ("log", paths.event_log_path(&fid))] {
+            if !path.exists() {
+                continue;
+            }
+            let aside = path.with_extension("aside");
+            if std::fs::rename(&path, &aside).is_err() {
+                continue;
+            }
+            rec.stats.fault("disk.file_removed");
+            trials += 1;
+            rec.case(&format!("fs:folder.{what}.removed"));
+            match run_report(dev, conc).await {
+                Ok((failures, _)) => {
+                    if !failures.iter().any(|(id, _)| *id == fid) {
+                        rec.violate(
+                            "C16",
+                            &format!("C16/fs/removed_folder_{what}_not_reported"),
+                            format!("folder {fid}: {} removed; report failures: {failures:?}", path.display()),
+                        );
+                    }
+                }
+                // the report refusing to run at all is a detection too
+                Err(e) => {
+                    rec.stats.count("c16.report_errors_on_removed_file");
+                    rec.observe(&format!("report error after removing {what}: {e}"));
+                }
+            }
+            let _ = std::fs::rename(&aside, &path);
+        }
+    }
+    trials
 }
